@@ -104,16 +104,20 @@ def items (l : DList) : List Node := l
 def size (l : DList) : Int := l.length
 /-- `l.items` of a `*listImpl` -/
 def setItems (_ : DList) (xs : List Node) : DList := xs
-/-- `leaf.Value()` -/
+/-- `leaf.Value()`; also `l.value` of a `*leaf` -/
 def value (s : Leaf) : Any := s
+/-- `&leaf{value: v}` -/
+def mkLeaf (v : Any) : Leaf := v
 /-- `cmp.Equal(a, b)` on two leaf values (NaN-free, −0-free scalars: DESIGN section 7, item 5) -/
 def cmpEqual (a b : Any) : Bool := a == b
-/-- `x.Equals(y)` where it is NOT the function being translated: the hand-written `equals` -/
+/-- `x.Equals(y)` as the hand-written `equals` (reference of `Equals_generated_eq_model`; the translator
+    maps interface calls `v.Equals(o)` / `v.Clone()` to the GENERATED dispatchers `Equals` / `Clone` of
+    Generated/FuncsDom.lean, see extract/translate_dispatch.go) -/
 def equals (x : Node) (y : Option Node) : Bool :=
   match y with
   | some y => Ytk.equals x y
   | none => false
-/-- `x.Clone()` where it is NOT the function being translated: the hand-written `clone` -/
+/-- `x.Clone()` as the hand-written `clone` (reference of `Clone_generated_eq_model`) -/
 def clone (x : Node) : Node := Ytk.clone x
 
 /-! ## Go maps `map[string]dom.Node` -/
@@ -128,6 +132,9 @@ def mapGet (m : Container) (k : String) : Option Node := AMap.get? m k
 def mapDelete (m : Container) (k : String) : Container := AMap.erase m k
 /-- `r.children = m` -/
 def setChildren (_ : Container) (m : Container) : Container := m
+/-- `c.ensureChildren()` (allocates the map when it is nil: a nil map and an empty map are the same
+    association list) -/
+def ensureChildren (c : Container) : Container := c
 
 /-! ## builders (functional updates) -/
 
